@@ -89,6 +89,7 @@ def main():
                     pending = "call vtrsch('%s',tcnuc)" % name
                     nsch += 1
                 elif params == ['levelkev']:
+                    name = name[0].upper() + name[1:]     # 'pt192low' is declared in lower case and called as Pt192low
                     pending = "call vtrlow('%s',levelkev)" % name
                     nsch += 1
                 header_open = True
